@@ -2,6 +2,16 @@
 """Regenerates MANIFEST.json from the table below."""
 import json
 claimed = {
+ "C09": ("fault_enumeration", "8 C09", "seeded deterministic simulation: scripted clients (independent protocol implementation) drive register/close/drop/squat/race histories against real frps; reference allocator + comparison with what simnet really has bound after every acknowledged step",
+         "Enumerates port requests (0, in range, out of range, negative, >65535, squatted, grouped) x histories x concurrent acquirers; every outcome is compared with a sequential reference allocator and the really bound ports; listen failures are injected between availability probe and real listen (C10 shares that path)."),
+ "C10": ("fault_enumeration", "8 C10", "seeded deterministic simulation: cycles of registration and termination (CloseProxy, connection drop/reset, re-login with same run id, heartbeat timeout by partition) for all proxy types, partial-failure injection, identical re-registration oracle and footprint slope test",
+         "Termination paths x proxy types x partial failures are enumerated per run; the identical registration afterwards must succeed, bystanders keep serving, and goroutine/endpoint/connection footprint is compared between cycle 2 and the last cycle after transient holds have expired."),
+ "C11": ("exploration", "8 C11", "seeded deterministic simulation with L2 yield perturbation: scripted client with good/late/never/dead work-connection behaviour, 1-16 simultaneous users on four accept paths, surplus flood, work connections arriving during teardown",
+         "Explores arrival orders of user vs work connections and teardown timing; checks one-user-per-work-connection, StartWorkConn contents, pre-request count, bounded parking of surplus offers, and that no work connection is left open after the session ends."),
+ "C12": ("exploration", "8 C12", "seeded deterministic simulation with L2 yield perturbation: login/register/foreign close/re-login (single and concurrent)/disconnect histories checked against a name->owner, run-id->session model; run-id format/uniqueness",
+         "Histories and interleavings of 2-3 scripted clients; at the acknowledgement of a re-login the old session's ports must already be unbound, own names re-register, exactly one survivor of concurrent re-logins, late cleanup never removes the new session."),
+ "C13": ("exploration", "8 C13", "seeded deterministic simulation with L2 yield perturbation: join/leave/drop/probe/rotation histories and last-leave-racing-join steps on tcp, http and tcpmux groups against a membership model; any frps panic counts",
+         "Explores the lookup/mutate window of the group controllers under seeded perturbation at every lock/channel site; membership model decides every join and every served connection."),
  "C01": ("exploration", "8 C01", "seeded deterministic whole-system simulation (frps+frpc in one synctest bubble on a simulated network) with per-read stream-prefix, completeness, close-propagation, cross-wiring, PROXY-header and sliding-window bandwidth oracles",
          "Exploration over the option lattice x payloads x chunking x close orders x network schedules; every read at both endpoints is compared with the unique stream written at the matching endpoint, so loss/duplication/reordering/alteration/injection/cross-wiring show up at the first bad byte. Sampling, not proof."),
 }
